@@ -6,3 +6,4 @@ pub mod r2;
 pub mod r3;
 pub mod r4;
 pub mod r9;
+pub mod r5;
